@@ -589,6 +589,7 @@ func c12Case(c *core.Ctx, idx int) {
 	if c.Thorough() {
 		nv = 30
 	}
+	recycled, recycledDef := reflect.New(typ), reflect.New(typ)
 	for j := 0; j < nv; j++ {
 		v := (&gen.VG{R: rv, C: protoCfg, Budget: 150}).Value(typ, "")
 		data, err, pn := marshal(p, nil, ptrTo(v))
@@ -648,6 +649,18 @@ func c12Case(c *core.Ctx, idx int) {
 			rec.Violation("proto-round-trip", fmt.Sprintf("does not round-trip in proto mode: %s %s", d, desc()), caseExtra(tc, v, data))
 			return
 		}
+		// 3b. the recycling idiom of this mode (decoding the repeated form appends, so a re-used
+		// message has its slices truncated to [:0] first): same value as into a fresh target
+		recycle(recycled.Elem())
+		if err, pn := unmarshal(p, data, recycled.Interface()); err != nil || pn != "" {
+			rec.Violation("proto-round-trip", fmt.Sprintf("into a recycled target: %v %s %s", err, pn, desc()), caseExtra(tc, v, data))
+			return
+		}
+		rec.Eval(1)
+		if d := model.Diff(norm, recycled.Elem(), "$"); d != "" {
+			rec.Violation("proto-round-trip", fmt.Sprintf("decoding into a recycled target (slices truncated to [:0], other fields zeroed, earlier values of this case decoded into it before) gives another value than into a fresh one: %s %s", d, desc()), caseExtra(tc, v, data))
+			return
+		}
 		// 4. third-party parse
 		if md != nil {
 			msg := dynamicpb.NewMessage(md)
@@ -692,6 +705,15 @@ func c12Case(c *core.Ctx, idx int) {
 				}
 				if d := model.Diff(four[1].cfg.Normalise(v, "", true), def.Elem(), "$"); d != "" {
 					rec.Violation("default-reads-repeated", fmt.Sprintf("a default-mode instance decodes the repeated-field form to another value: %s\n  bytes %s %s", d, hexHead(ad), desc()), caseExtra(tc, v, ad))
+					return
+				}
+				recycle(recycledDef.Elem())
+				if err, pn := unmarshal(four[0].p, ad, recycledDef.Interface()); err != nil || pn != "" {
+					rec.Violation("default-reads-repeated", fmt.Sprintf("into a recycled target: %v %s\n  bytes %s %s", err, pn, hexHead(ad), desc()), caseExtra(tc, v, ad))
+					return
+				}
+				if d := model.Diff(four[1].cfg.Normalise(v, "", true), recycledDef.Elem(), "$"); d != "" {
+					rec.Violation("default-reads-repeated", fmt.Sprintf("a default-mode instance decodes the repeated-field form into a recycled target (slices truncated to [:0]) to another value than into a fresh one: %s\n  bytes %s %s", d, hexHead(ad), desc()), caseExtra(tc, v, ad))
 					return
 				}
 				rec.Count("default_reads_repeated", 1)
@@ -744,6 +766,26 @@ func firstBadWireType(data []byte) int {
 		}
 	}
 	return -1
+}
+
+// recycle prepares a struct for re-use the way callers of the repeated-field form do: slices are
+// truncated to length 0 keeping their backing arrays, every other field is zeroed
+func recycle(v reflect.Value) {
+	if v.Kind() != reflect.Struct {
+		v.Set(reflect.Zero(v.Type()))
+		return
+	}
+	for i := 0; i < v.NumField(); i++ {
+		fv := v.Field(i)
+		if !fv.CanSet() {
+			continue
+		}
+		if fv.Kind() == reflect.Slice && !fv.IsNil() {
+			fv.Set(fv.Slice(0, 0))
+		} else {
+			fv.Set(reflect.Zero(fv.Type()))
+		}
+	}
 }
 
 func init() {
